@@ -139,6 +139,15 @@ def _handle_desc(job, public=False):
 
 
 def judge_c04(w, st, pre, post, res, val):
+    out = _judge_c04(w, st, pre, post, res, val)
+    taint = set(st.get("tainted", ())) | w.taint
+    if "D3-leak" in taint and w.step_conformant:
+        # a rejected value sits in some handle's memory (DEVIATION D3): what follows from it is one known finding
+        out = [("modelled:%s:D3-leak" % sig.split(":")[0] if not sig.startswith(("handles-follow:copy-taken", "modelled:")) else sig, what) for sig, what in out]
+    return out
+
+
+def _judge_c04(w, st, pre, post, res, val):
     out = []
     last = st["last"]
     op, a = last["op"], last["args"]
@@ -165,7 +174,9 @@ def judge_c04(w, st, pre, post, res, val):
                 if y != x and w.root.get(y) == w.root.get(x) and w.pre_handles.get(y, {}).get("id") == old["id"]:
                     dy, dx = _handle_desc(jy, w.is_last), _handle_desc(job, w.is_last)
                     if dy != dx:
-                        early = y in w.early_copies or x in w.early_copies
+                        # copies that share the state point dict must follow; a copy taken before the first .statepoint
+                        # access (and every copy of such a copy) has a dict of its own - DEVIATION D2
+                        early = w.grp.get(y, y) != w.grp.get(x, x)
                         sig = "handles-follow:copy-taken-before-first-statepoint-access" if early else "handles-follow:" + op
                         out.append((sig, "copy %s of handle %s does not follow the re-key: %s vs %s" % (y, x, dy, dx)))
             dx = _handle_desc(job, w.is_last)
@@ -403,6 +414,7 @@ def replay_behaviour(uni, projects, states, judge, base, stop_on_mismatch=True):
             res, val = w.do(st["last"])
             post = core.snapshot(w.base)
             bad = W.compare(st, w, res, val, projects)      # before the judge: judging may touch lazy state on the last step
+            w.step_conformant = not bad
             if judge:
                 with observer_isolation():
                     for sig, what in judge(w, st, pre, post, res, val):
@@ -437,11 +449,22 @@ class World2(W.World):
         self.pre_handles, self.pre_spec, self.pre_stat = {}, None, {}
         self.alias_bug = None
         self.is_last = False
+        self.grp = {}            # handle -> group of handles sharing one state point dict (as the code builds them)
+        self.taint = set()       # known deviations observed to fire in this behaviour (used when no model state is at hand)
+        self.step_conformant = True
 
     def do(self, last):
         op, a = last["op"], last["args"]
         if op == "copy" and a[0] in self.h:
             early = getattr(self.h[a[0]], "_statepoint_requires_init", False)
+        legit_keyerror = False
+        if op == "update_sp" and a[0] in self.h and not a[3]:
+            cur = _handle_desc(self.h[a[0]])["sp"] or {}
+            path = self.uni.kmap[a[1]]
+            node = cur
+            for part in path:
+                node = node.get(part, None) if isinstance(node, dict) else None
+            legit_keyerror = node is not None and not W._type_exact(node, self.uni.vmap[a[2]])
         if op == "open_sp":
             # C02: the handle must be unaffected by later mutation of the caller's mapping
             arg = self.uni.real(a[2])
@@ -465,12 +488,22 @@ class World2(W.World):
             self.root[a[0]] = a[0]
         elif op == "copy" and res == "ok":
             self.root[a[1]] = self.root.get(a[0], a[0])
+            self.grp[a[1]] = a[1] if early else self.grp.get(a[0], a[0])
             if early:
                 self.early_copies.add(a[1])
         elif op == "clone" and res == "ok":
             self.root[a[2]] = a[2]
+            self.grp[a[2]] = a[2]
+        elif op == "move" and res == "ok":
+            self.grp[a[0]] = a[0] + "'"
         elif op == "restart":
-            self.root, self.early_copies = {}, set()
+            self.root, self.early_copies, self.grp = {}, set(), {}
+        if op in ("open_sp", "open_id", "open_iter") and res == "ok":
+            self.grp[a[0]] = a[0]
+        # DEVIATION D3 observed: a whole assignment answered KeyError (it never legitimately does) - the rejected value now
+        # sits in that handle's memory
+        if res == "KeyError" and (op == "assign" or (op == "update_sp" and not legit_keyerror)):
+            self.taint.add("D3-leak")
         return res, val
 
 
